@@ -129,22 +129,22 @@ func (m *FlexMap) UnmarshalJSON(b []byte) error {
 }
 
 type Expect struct {
-	Bal     FlexMap   `json:"bal"`
-	Stor    FlexMap   `json:"stor"`
-	Code    FlexMap   `json:"code"`
-	Nonce   FlexMap   `json:"nonce"`
-	Logs    []string  `json:"logs"`
-	Dead    []string  `json:"dead"`
-	Exists  []string  `json:"exists"`
-	Nodes   []NodeX   `json:"nodes"`
-	Cur     int       `json:"cur"`
-	Fired   []FiringX `json:"fired"`
-	Ev      []EvX     `json:"ev"`
-	Results []ResX    `json:"results"`
-	Writes  []string  `json:"writes"`
+	Bal     FlexMap             `json:"bal"`
+	Stor    FlexMap             `json:"stor"`
+	Code    FlexMap             `json:"code"`
+	Nonce   FlexMap             `json:"nonce"`
+	Logs    []string            `json:"logs"`
+	Dead    []string            `json:"dead"`
+	Exists  []string            `json:"exists"`
+	Nodes   []NodeX             `json:"nodes"`
+	Cur     int                 `json:"cur"`
+	Fired   []FiringX           `json:"fired"`
+	Ev      []EvX               `json:"ev"`
+	Results []ResX              `json:"results"`
+	Writes  []string            `json:"writes"`
 	Keys    [][]json.RawMessage `json:"keys"`
-	Chg     []JrnX    `json:"chg"`
-	BalJ    []JrnX    `json:"balj"`
+	Chg     []JrnX              `json:"chg"`
+	BalJ    []JrnX              `json:"balj"`
 }
 
 type Scenario struct {
@@ -263,9 +263,9 @@ func Calldata(id, alen int) []byte {
 }
 
 var (
-	retEE = bytes.Repeat([]byte{0xee}, 32)
-	retDD = bytes.Repeat([]byte{0xdd}, 32)
-	clobb = bytes.Repeat([]byte{0x77}, 32)
+	retEE  = bytes.Repeat([]byte{0xee}, 32)
+	retDD  = bytes.Repeat([]byte{0xdd}, 32)
+	clobb  = bytes.Repeat([]byte{0x77}, 32)
 	retBig = make([]byte, 0x6001)
 )
 
